@@ -55,6 +55,14 @@ func probe(a arg) (string, string) {
 		if err != nil || string(out) != want {
 			return "formatter_text", fmt.Sprintf("DefaultFormatter(%d, flags=%#x) = %q, %v; want %q", a.N, a.Flags, out, err, want)
 		}
+		if a.Flags == 0 || a.Flags == 127 || a.Flags == 64 || a.N%97 == 0 { // the numeral must not depend on the destination buffer's spare capacity
+			for _, spare := range []int{1, len(want), len(want) + 1, 16, 64, 200} {
+				out, err := roman.DefaultFormatter(make([]byte, 0, spare), n, roman.Format(a.Flags))
+				if err != nil || string(out) != want {
+					return "formatter_text_with_spare_capacity", fmt.Sprintf("DefaultFormatter(make([]byte,0,%d), %d, flags=%#x) = %q, %v; want %q", spare, a.N, a.Flags, out, err, want)
+				}
+			}
+		}
 		return back(want, a.N, fmt.Sprintf("n=%d flags=%#x", a.N, a.Flags))
 	}
 	// methods under roman.DefaultFormat = a.DefFmt
